@@ -464,7 +464,11 @@ func (fx *fexec) execInstr(in ssa.Instruction, st *State) {
 		ref := st.alloc
 		st.alloc = vc.define("alloc", add(st.alloc, intLit(1)))
 		v := Val{Ty: vc.resolve(x.Type()), T: ref}
-		vc.storeLoc(st, vc.locOfPtr(v), vc.zero(et))
+		if isBigInt(vc.resolve(et)) {
+			vc.bigSet(st, ref, intLit(0)) // new(big.Int) is 0
+		} else {
+			vc.storeLoc(st, vc.locOfPtr(v), vc.zero(et))
+		}
 		fx.env[x] = v
 	case *ssa.FieldAddr:
 		base := fx.val(x.X)
